@@ -701,6 +701,39 @@ def run(prop, tier, seed):
                 return None
             _, b8, _ = l2_family(run_, exe, full, judge_full, cls=lambda s, r: "/dev/full exit %d" % r["exit"], compare=False)
             bad += b8
+            # the reject file cannot be written (a directory stands at its name, -r names a path below a regular file) while some hunk
+            # applies and another fails: no hunk may end up applied in the target while the failed one is saved nowhere
+            blk = []
+            for _ in range(max(8, n // 25)):
+                while True:
+                    sec = scen.section(rng, rng.choice(["bf", "bd/bf"]), kind="change", fmt=rng.choice(["unified", "context"]), width=rng.choice([1, 2]), nonl=False)
+                    if len(sec["hs"]) >= 2:
+                        break
+                how = rng.choice(["dir-at-rej", "r-below-file"])
+                s0 = scen.base_scenario(rng, [sec], opts=({"f": 1} if how == "dir-at-rej" else {"f": 1, "r": "plain/rejects"}))
+                # spoil the place of the last hunk only
+                k_, m_, d_ = s0["tree"][sec["path"]]
+                ls_ = d_.split(b"\n"); h_ = sec["hs"][-1]
+                for j_ in range(h_["os"] - 1, min(len(ls_) - 1, h_["os"] - 1 + max(1, h_["oc"]))):
+                    ls_[j_] = b"spoiled " + ls_[j_]
+                s0["tree"][sec["path"]] = (k_, m_, b"\n".join(ls_))
+                if how == "dir-at-rej":
+                    s0["tree"][sec["path"] + ".rej"] = ("D", 0o755, b""); s0["tree"][sec["path"] + ".rej/keep"] = ("R", 0o644, b"k\n")
+                else:
+                    s0["tree"]["plain"] = ("R", 0o644, b"a regular file\n")
+                s0["how"] = how
+                blk.append(s0)
+            def judge_blk(s, r):
+                p_ = s["secs"][0]["path"]; after = tree_no_meta(r["tree"])
+                out = r["stdout"].decode("latin-1")
+                if "FAILED" not in out:
+                    return None
+                saved = any(k_.endswith("rejects") or (k_.endswith(".rej") and v_[0] == "R") for k_, v_ in after.items() if k_ not in s["tree"] or after[k_] != tree_no_meta({k_: s["tree"][k_] + ()})[k_])
+                if after.get(p_) != (s["tree"][p_][0], s["tree"][p_][1], s["tree"][p_][2]) and not saved:
+                    return "the reject file cannot be written (%s), exit %d: the target was changed by the hunks that fit while the failed hunk is saved nowhere" % (s["how"], r["exit"])
+                return None
+            _, b9, m9 = l2_family(run_, exe, blk, judge_blk, cls=lambda s, r: "reject path blocked (%s) exit %d" % (s["how"], r["exit"]))
+            bad += b9; mism += m9
             # a read of the target or of the patch file that fails part way (files larger than a stdio buffer, EIO on each read in
             # turn): the run either says so with status 2 or is the undisturbed run -- a short reading is not the end of the file,
             # its hunks are neither "applied" to a truncated target (status 0) nor "rejected" (status 1)
